@@ -29,11 +29,16 @@ struct Probe : cocls::queue<int> {
 
 struct World {
     std::unique_ptr<Probe> q{new Probe()};
-    std::deque<std::unique_ptr<cocls::future<int>>> futs;
+    // pop futures are constructed in place in storage the controller already knows (guaranteed elision), so a
+    // future is observable from the moment pop() starts -- also while its thread is parked after the unlock
+    struct Slot { alignas(cocls::future<int>) unsigned char mem[sizeof(cocls::future<int>)]; bool live = false; };
+    std::deque<std::unique_ptr<Slot>> futs;
+    cocls::future<int> *fut(std::size_t i) { return reinterpret_cast<cocls::future<int> *>(futs[i]->mem); }
     std::map<const void *, int> id_of;
     std::vector<std::string> threads;
     std::map<std::string, int> tid;
     std::map<std::string, std::string> cmd, ret;
+    std::map<std::string, bool> resolving;   // the thread's last critical section took a parked promise out (to resolve it outside)
     std::map<std::string, int> arg;
     int npush = 0, npop = 0;
     bool stop = false;
@@ -52,7 +57,8 @@ static void client(World &w, const std::string &me) {
             // the future must be reachable by the controller as soon as the critical section is left:
             // it is constructed in place in storage registered beforehand
             int id = w.arg[me];
-            w.futs[id - 1].reset(new cocls::future<int>(w.q->pop()));
+            w.futs[id - 1]->live = true;
+            new (w.futs[id - 1]->mem) cocls::future<int>(w.q->pop());
         } else if (c == "size") {
             // size() and empty() must agree; both are critical sections of their own
             std::size_t n = w.q->size();
@@ -69,7 +75,7 @@ static J fut_state(World &w, std::size_t i) {
     J m = J::map();
     std::string st = "pending";
     int v = 0;
-    auto &f = w.futs[i];
+    cocls::future<int> *f = w.futs[i]->live ? w.fut(i) : nullptr;
     if (f && f->ready()) {
         try { v = f->value(); st = "val"; }
         catch (const cocls::await_canceled_exception &) { st = "canceled"; }
@@ -110,8 +116,7 @@ int main() {
             for (std::size_t i = 0; i < w.futs.size(); i++) {
                 // a pop whose future object does not exist yet (thread still inside pop()) can only be observed
                 // through the promise: parked (pending) -- report pending
-                if (!w.futs[i]) { J x = J::map(); x.set("st", "pending"); x.set("v", 0); fl.push(x); }
-                else fl.push(fut_state(w, i));
+                fl.push(fut_state(w, i));
             }
             m.set("fut", fl);
             J items = J::list(), waiters = J::list();
@@ -135,10 +140,29 @@ int main() {
             for (auto &t : w.threads) {
                 r.set(t, w.ret[t]);
                 std::string p = pend_of(w, t);
-                pend.set(t, p == "after_unlock" ? "resolve" : p);
+                // parked after the unlock: "resolve" when a promise taken out of the queue is still to be resolved
+                // (push hand-over / unblock), otherwise the call has nothing observable left to do: idle
+                pend.set(t, p == "after_unlock" ? (w.resolving[t] ? "resolve" : "idle") : p);
             }
             m.set("ret", r);
             m.set("pend", pend);
+            return m;
+        };
+        auto core = [&]() {
+            J full = proj();
+            J m = J::map();
+            // the projection without the per-thread fields
+            JV v = JReader(full.dump()).parse();
+            (void) v;
+            J items = J::list(), waiters = J::list(), fl = J::list();
+            if (w.q) {
+                auto copy = w.q->_queue;
+                while (!copy.empty()) { items.push(copy.front()); copy.pop(); }
+                m.set("nwaiters", (long) w.q->_awaiters.size());
+            }
+            for (std::size_t i = 0; i < w.futs.size(); i++) fl.push(fut_state(w, i));
+            m.set("items", items);
+            m.set("fut", fl);
             return m;
         };
         bool bad = false;
@@ -153,17 +177,22 @@ int main() {
             const std::string &t = st.sarg(0);
             int id = w.tid[t];
             if (st.name == "PushCS" || st.name == "PopCS" || st.name == "UnblockCS" || st.name == "SizeCS") {
+                // a thread that finished its critical section stays parked right after the unlock until it is needed
+                // again: whatever it still has to do outside the lock is thereby exposed to the other threads
                 if (pend_of(w, t) != "idle") { rep.diverge(k, "thread " + t + " is not idle in the implementation: " + pend_of(w, t)); bad = true; break; }
                 if (st.name == "PushCS") { w.cmd[t] = "push"; w.arg[t] = ++w.npush; }
                 else if (st.name == "PopCS") {
                     w.cmd[t] = "pop"; w.arg[t] = ++w.npop;
-                    w.futs.emplace_back();
+                    w.futs.emplace_back(new World::Slot());
+                    w.id_of[w.futs.back()->mem] = w.npop;
                 }
                 else if (st.name == "SizeCS") w.cmd[t] = "size";
                 else w.cmd[t] = "unblock";
                 w.sched.step(id);                       // from the mark to the lock operation (silent)
                 if (pend_of(w, t) != "at_lock") { rep.diverge(k, "thread " + t + " did not reach the queue lock: " + pend_of(w, t)); bad = true; break; }
+                std::size_t before = w.q->_awaiters.size();
                 w.sched.step(id);                       // the critical section
+                w.resolving[t] = st.name != "PopCS" && w.q->_awaiters.size() < before;
                 if (st.name == "PopCS") {
                     // the promise created by pop() identifies the future: learn it from the parked promise or
                     // after the call returns
@@ -171,16 +200,26 @@ int main() {
             } else if (st.name == "PushResolve" || st.name == "UnblockResolve") {
                 if (pend_of(w, t) != "after_unlock") { rep.diverge(k, "thread " + t + " is not between unlock and resolution: " + pend_of(w, t)); bad = true; break; }
                 w.sched.step(id);                       // resolution outside the lock, up to the next mark
+                w.resolving[t] = false;
             } else { rep.error(k, "unknown action"); bad = true; break; }
-            // silent move: the specification's thread is idle but the implementation is parked after its unlock
-            // (the critical section needed no resolution outside the lock)
+            // The specification says the call is complete when its critical section ends (thread idle): whatever the
+            // implementation still does between the unlock and the return must not change the queue's state --
+            // otherwise that work is exposed to other threads (a guarded access moved outside the lock).
             {
                 JV exp = JReader(st.expected).parse();
                 std::string want = exp.at("pend").at(t).as_str();
-                if (want == "idle" && pend_of(w, t) == "after_unlock") w.sched.step(id);
+                if (want == "idle" && pend_of(w, t) == "after_unlock") {
+                    std::string before = core().dump();
+                    w.sched.step(id);
+                    w.resolving[t] = false;
+                    std::string after = core().dump();
+                    if (before != after) {
+                        rep.diverge(k, "queue state changed between the unlock and the return of the call (outside the critical section): before=" + before + " after=" + after);
+                        bad = true;
+                        break;
+                    }
+                }
             }
-            // register futures created meanwhile (address -> pop id)
-            for (std::size_t i = 0; i < w.futs.size(); i++) if (w.futs[i]) w.id_of[w.futs[i].get()] = (int) i + 1;
             if (!rep.check(k, proj())) bad = true;
         }
         w.stop = true;
@@ -190,7 +229,7 @@ int main() {
         if (!drained) { fflush(stdout); _exit(1); }
         w.sched.join_all();
         w.q.reset();
-        for (auto &f : w.futs) if (f && !f->ready()) (void) f.release();
+        for (std::size_t i = 0; i < w.futs.size(); i++) if (w.futs[i]->live && w.fut(i)->ready()) w.fut(i)->~future();
         delete pw;
     });
 }
